@@ -25,3 +25,31 @@ def run(rep, tier, seed):
     lines = transforms.gen(seed, tier, "C17")
     vlib.run_stream(rep, "transforms", "transforms", "transforms", lines, oracle=transforms.oracle,
                     nontrivial=transforms.nontrivial, key=transforms.key)
+
+
+def replay(path):
+    """bin/check C17 --replay <file>: re-run the recorded case on both sides, print both answers and the oracle's verdict."""
+    import os, re
+    txt = open(path).read()
+    m = re.search(r"^input: (.*)$", txt, re.M)
+    if not m:
+        print("no recorded input in", path)
+        return 2
+    line = m.group(1).strip()
+    hexe, err = vlib.build_harness("transforms")
+    dexe, err2 = vlib.build_driver("transforms")
+    if err or err2:
+        print(err or err2)
+        return 2
+    d = os.path.join(vlib.VERIF, "out", "C17")
+    os.makedirs(d, exist_ok=True)
+    cf = os.path.join(d, "replay.case")
+    open(cf, "w").write(line + "\n")
+    impl = vlib.run_harness_resilient(hexe, (), cf, 1, 120).get(0, "MISSING")
+    rc, out = vlib.sh([dexe, cf], timeout=120)
+    model = out.strip().split(" ", 2)[2] if out.startswith("R 0 ") else out.strip()
+    print("input:          ", line)
+    print("implementation: ", impl)
+    print("model:          ", model)
+    print("oracle:         ", transforms.oracle(line, impl, None) or "property holds on the implementation's answer (sampled executions)")
+    return 0 if impl == model else 1
